@@ -102,6 +102,18 @@ pub fn check(st: &mut Stats, c: &C) {
             if t3.usecs() != t {
                 st.fail("C07/time-from-timestamp", format!("day {} time {} -> {}", n, t, t3.usecs()));
             }
+            // the date (= its own midnight) against the timestamp built from it: all six operators, both directions
+            {
+                use std::cmp::Ordering;
+                let e = if t == 0 { Ordering::Equal } else { Ordering::Less };
+                st.op(Op::D_cmp_ts);
+                let fwd = d.partial_cmp(&ts) == Some(e) && (d == ts) == (e == Ordering::Equal) && (d != ts) == (e != Ordering::Equal) && (d < ts) == (e == Ordering::Less) && (d <= ts) && (d > ts) == false && (d >= ts) == (e == Ordering::Equal);
+                let r = e.reverse();
+                let bwd = ts.partial_cmp(&d) == Some(r) && (ts == d) == (r == Ordering::Equal) && (ts != d) == (r != Ordering::Equal) && (ts > d) == (r == Ordering::Greater) && (ts >= d) && (ts < d) == false && (ts <= d) == (r == Ordering::Equal);
+                if !fwd || !bwd {
+                    st.fail("C07/order/date-vs-own-timestamp", format!("day {} time {}: an operator of {} disagrees with chronological order", n, t, if !fwd { "Date op Timestamp" } else { "Timestamp op Date" }));
+                }
+            }
             // equivalent constructors
             st.op(Op::D_and_time);
             st.op(Op::D_add_time);
@@ -295,6 +307,17 @@ pub fn run(ctx: &Ctx, st: &mut Stats) {
         }
         let t = *rng.pick(&[0i64, 1, 43_200_000_000, DAY_US - 1]);
         st.eval_hist(mix(mix(a as u64, b as u64), t as u64), vec![C::ab(K::Pair, a, t), C::ab(K::Pair, b, t), C::ab(K::Pair, a, t)], check);
+    });
+    ctx.par(st, "history: other operations on related dates (primers), then the judged case; also A,A", false, 0, nh, |st, i, rng| {
+        let n = rng.range_i64(MIN_DAY as i64, MAX_DAY as i64);
+        let t = if rng.chance(1, 2) { rng.range_i64(0, DAY_US - 1) } else { *rng.pick(&[0i64, 1, 43_200_000_000, DAY_US - 1]) };
+        let c = C::ab(K::Pair, n, t);
+        if i % 8 == 0 {
+            st.eval_hist(mix(c.hash(6), 0xAA), vec![c, c], check);
+        } else {
+            let pr = crate::primers::gen_some(rng, &[n], t, &[]);
+            st.eval_primed(mix(c.hash(7), i as u64), pr, c, check);
+        }
     });
     st.stratum("history: Date accessors and Timestamp accessors on numerically equal raw values", true);
     for n in date_pool().into_iter().map(|x| x as i64).chain((-3000..3000).map(|x| x * 487)).chain([0, 1, -1, 2, -2, 365, 719_162, -719_162, 2_932_896]) {
